@@ -45,6 +45,8 @@ func runC18(c *Ctx) {
 	})
 	checkLockBalance(r, p, "lock/balance", []string{pkg}, nil, nil)
 	checkLockOrder(r, p, "lock/order", lockOrderOpts{Pkgs: []string{pkg}})
+	// the QueueElement handed back by Add is the handle for Cancel: it stays tied to this one scheduling
+	checkFreshPushedElement(r, p, pkg, "Queue", "Add")
 	conds := discoverConds(p, pkg)
 	if len(conds) != 1 {
 		r.Fail("cond/wiring", pkg, "-", fmt.Sprintf("expected Queue.waitCond wired to heapMutex, found %v", conds))
